@@ -124,3 +124,90 @@ add("logstep-03-loop-value-plus-one", ["C05"], "countmin",
     "    one = uint16(1)\n    for i in range(value):", "    one = uint16(1)\n    for i in range(value + 1):", rules=["logstep"])
 add("E-logstep-01-int-compare", ["C05", "C18"], "countmin",
     "        if cprime < 0:\n            counter += one", "        if counter < num_reserved:\n            counter += one", kind="E")
+
+# ---------------------------------------------------------------------------
+# heavy hitters: keyid / bm-table / keynorm / scan-all / maxcount / report  (C03, C04, C13)
+# ---------------------------------------------------------------------------
+add("keyid-01-add-bytes-only (F1 pre-fix)", ["C03", "C04", "C13"], "heavyhitters",
+    "        if np.all(key_array == lhh[row, col]) and key_lens[row, col] == key_len:", "        if np.all(key_array == lhh[row, col]):",
+    rules=["keyid"])
+add("keyid-02-maxcount-bytes-only (F1 pre-fix)", ["C03", "C04", "C13"], "heavyhitters",
+    "            np.all(key_array == lhh[row, col])\n            and key_lens[row, col] == key_len\n            and lhh_count[row, col] > max_count",
+    "            np.all(key_array == lhh[row, col])\n            and lhh_count[row, col] > max_count", rules=["keyid"])
+add("keyid-03-merge-bytes-only", ["C03", "C04"], "heavyhitters",
+    "            keys_match = (np.all(lhh[row, col] == other_lhh[row, col])) and (\n                key_lens[row, col] == other_key_lens[row, col]\n            )",
+    "            keys_match = np.all(lhh[row, col] == other_lhh[row, col])", rules=["keyid"])
+add("keyid-04-merge-length-of-wrong-cell", ["C03", "C04"], "heavyhitters",
+    "                key_lens[row, col] == other_key_lens[row, col]\n            )", "                key_lens[row, col] == other_key_lens[row, 0]\n            )", rules=["keyid"])
+add("keynorm-01-getitem-no-truncation (F3 pre-fix)", ["C04"], "heavyhitters",
+    "        key = key[: int(self.max_key_len)]\n        key_len = len(key)", "        key_len = len(key)", rules=["keynorm"])
+add("keynorm-02-add-hashes-untruncated-key", ["C04"], "heavyhitters",
+    "        key = key[:max_key_len]\n        key_len = max_key_len\n        key_array = np.frombuffer(key, uint8)",
+    "        key_len = max_key_len\n        key_array = np.frombuffer(key[:max_key_len], uint8)", rules=["addr", "keynorm"])
+add("bm-01-replacement-takes-full-value", ["C03", "C04"], "heavyhitters",
+    "                lhh_count[row, col] = value - lhh_count[row, col]\n", "                lhh_count[row, col] = value\n", rules=["bm-table"])
+add("bm-02-replacement-forgets-length", ["C03", "C04"], "heavyhitters",
+    "                key_lens[row, col] = uint8(key_len)\n", "", rules=["bm-table"])
+add("bm-03-merge-arms-swapped", ["C03", "C04"], "heavyhitters",
+    "                if lhh_count[row, col] >= other_lhh_count[row, col]:", "                if lhh_count[row, col] < other_lhh_count[row, col]:",
+    rules=["bm-table", "range"])
+add("bm-04-match-increments-by-one", ["C03", "C04"], "heavyhitters",
+    "                lhh_count[row, col] += value\n", "                lhh_count[row, col] += uint32(1)\n", rules=["bm-table"])
+add("bm-05-merge-match-takes-max", ["C03", "C04"], "heavyhitters",
+    "                    lhh_count[row, col] += other_lhh_count[row, col]", "                    lhh_count[row, col] = max(lhh_count[row, col], other_lhh_count[row, col])",
+    rules=["bm-table"])
+add("bm-06-merge-replacement-keeps-old-length", ["C03", "C04"], "heavyhitters",
+    "                    key_lens[row, col] = other_key_lens[row, col]\n", "", rules=["bm-table"])
+add("bm-07-no-decrement", ["C04"], "heavyhitters",
+    "            else:\n                lhh_count[row, col] -= value\n", "", rules=["bm-table"])
+add("E-bm-01-tie-goes-to-newcomer", ["C03", "C04", "C18"], "heavyhitters",
+    "            if value > lhh_count[row, col]:", "            if value >= lhh_count[row, col]:", kind="E")
+add("E-bm-02-merge-arms-swapped-consistently", ["C03", "C04", "C18"], "heavyhitters",
+    "                if lhh_count[row, col] >= other_lhh_count[row, col]:\n                    lhh_count[row, col] -= other_lhh_count[row, col]\n                else:\n                    lhh[row, col] = other_lhh[row, col]\n                    key_lens[row, col] = other_key_lens[row, col]\n                    lhh_count[row, col] = (\n                        other_lhh_count[row, col] - lhh_count[row, col]\n                    )",
+    "                if lhh_count[row, col] < other_lhh_count[row, col]:\n                    lhh[row, col] = other_lhh[row, col]\n                    key_lens[row, col] = other_key_lens[row, col]\n                    lhh_count[row, col] = (\n                        other_lhh_count[row, col] - lhh_count[row, col]\n                    )\n                else:\n                    lhh_count[row, col] -= other_lhh_count[row, col]",
+    kind="E")
+add("scan-01-maxcount-first-row-only", ["C04", "C13"], "heavyhitters",
+    "    max_count = uint32(0)\n    for row in range(depth):", "    max_count = uint32(0)\n    for row in range(1):", rules=["scan-all"])
+add("scan-02-candidates-first-row-only", ["C04", "C13"], "heavyhitters",
+    "        for row in range(self.depth):\n            for column in range(self.width):", "        for row in range(1):\n            for column in range(self.width):",
+    rules=["scan-all"])
+add("scan-03-skip-small-counts", ["C04", "C13"], "heavyhitters",
+    "                if self.lhh_count[row, column] == 0:\n                    continue", "                if self.lhh_count[row, column] <= 1:\n                    continue",
+    rules=["scan-all"])
+add("maxcount-01-running-min", ["C03", "C04"], "heavyhitters",
+    "            and lhh_count[row, col] > max_count\n", "            and lhh_count[row, col] < max_count\n", rules=["maxcount", "scan-all"])
+add("maxcount-02-counts-non-matching-cells", ["C03"], "heavyhitters",
+    "        if (\n            np.all(key_array == lhh[row, col])\n            and key_lens[row, col] == key_len\n            and lhh_count[row, col] > max_count\n        ):",
+    "        if lhh_count[row, col] > max_count:", rules=["maxcount", "keyid"])
+add("report-01-key-not-cut-to-length", ["C03", "C13"], "heavyhitters",
+    "                key = bytes(self.lhh[row, column, :key_len])", "                key = bytes(self.lhh[row, column, :])", rules=["report", "same-kernel", "keynorm"])
+add("report-02-count-from-cell", ["C13"], "heavyhitters",
+    "                        self.candidate_set[key] = max_count", "                        self.candidate_set[key] = self.lhh_count[row, column]", rules=["same-kernel"])
+add("cachekey-01-threshold-ignored", ["C13"], "heavyhitters",
+    "        if (self.n_added_sort < self.n_added()) or (self.threshold_sort != threshold):", "        if self.n_added_sort < self.n_added():", rules=["cachekey"])
+add("cachekey-02-threshold-not-recorded", ["C13"], "heavyhitters",
+    "        self.threshold_sort = threshold\n", "", rules=["cachekey"])
+add("cachekey-03-counter-reused", ["C13"], "heavyhitters",
+    "        self.threshold_sort = threshold\n        self.candidate_set = Counter()\n", "        self.threshold_sort = threshold\n", rules=["cachekey"])
+add("cachekey-04-nadded-ignored", ["C13"], "heavyhitters",
+    "        if (self.n_added_sort < self.n_added()) or (self.threshold_sort != threshold):", "        if self.threshold_sort != threshold:", rules=["cachekey"])
+add("cachekey-05-regenerate-with-default", ["C13"], "heavyhitters",
+    "            self.generate_candidate_set(threshold)\n", "            self.generate_candidate_set()\n", rules=["cachekey"])
+add("cachekey-06-and-for-or", ["C13"], "heavyhitters",
+    "        if (self.n_added_sort < self.n_added()) or (self.threshold_sort != threshold):", "        if (self.n_added_sort < self.n_added()) and (self.threshold_sort != threshold):", rules=["cachekey"])
+add("filter-01-strict", ["C13"], "heavyhitters",
+    "                    if max_count >= threshold:", "                    if max_count > threshold:", rules=["filter"])
+add("filter-02-default-threshold-differs", ["C13"], "heavyhitters",
+    "        if threshold is None:\n            threshold = np.uint32(self.phi * self.n_added())\n        else:\n            threshold = np.uint32(threshold)\n\n        self.n_added_sort",
+    "        if threshold is None:\n            threshold = np.uint32(self.phi * self.width)\n        else:\n            threshold = np.uint32(threshold)\n\n        self.n_added_sort", rules=["filter"])
+add("topk-01-k-plus-one", ["C13"], "heavyhitters",
+    "        return self.candidate_set.most_common(k)", "        return self.candidate_set.most_common(k + 1)", rules=["topk"])
+add("mutators-01-merge-forgets-nadded", ["C13"], "heavyhitters",
+    "    # Merge the special counters\n    n_added_records[0] += other_n_added_records[0]\n    n_added_records[1] += other_n_added_records[1]\n\n\n@njit(\n    uint32(",
+    "    # Merge the special counters\n    n_added_records[1] += other_n_added_records[1]\n\n\n@njit(\n    uint32(", rules=["sumcounters", "mutators"])
+add("E-cachekey-01-demorgan", ["C13"], "heavyhitters",
+    "        if (self.n_added_sort < self.n_added()) or (self.threshold_sort != threshold):", "        if not (self.n_added_sort >= self.n_added() and self.threshold_sort == threshold):", kind="E")
+add("E-cachekey-02-ne-for-lt", ["C13"], "heavyhitters",
+    "        if (self.n_added_sort < self.n_added()) or (self.threshold_sort != threshold):", "        if (self.n_added_sort != self.n_added()) or (self.threshold_sort != threshold):", kind="E")
+add("E-filter-01-flipped", ["C13"], "heavyhitters",
+    "                    if max_count >= threshold:", "                    if threshold <= max_count:", kind="E")
